@@ -238,7 +238,7 @@ func (a *c38Archive) focusObjects() []c38Object {
 func (k *c38Kit) singleMutations(archives []*c38Archive) {
 	sec := "single-mutation"
 	e := k.r.NewEnum(sec)
-	var nBytes, nObjs int64
+	var nBytes, nObjs, nSameSize int64
 	for ai, a := range archives {
 		n := a.shape.name
 		// B1: every byte of every object in scope x {bit0 flipped, 0xFF}
@@ -270,6 +270,29 @@ func (k *c38Kit) singleMutations(archives []*c38Archive) {
 					nBytes++
 				}
 				mut[off] = orig[off]
+			}
+		}
+		// B1b: same-size corruption of EVERY chunk object of the archive (first, middle, last byte,
+		// bit 0): quick = the first 8, the last 8 and every 16th Slot, thorough = all 256 Slots.
+		// In the "dup" archive most of these chunks carry a descriptor that an earlier Slot of the
+		// same verification pass already carried.
+		for oi, o := range a.objects {
+			if o.kind != "chunk" || !k.mine(oi) || k.timeUp() {
+				continue
+			}
+			if !k.thorough && !(o.slot < 8 || o.slot >= backup.DefaultHashSlotCount-8 || o.slot%16 == 0) {
+				continue
+			}
+			orig := a.body(o.key)
+			offs := []int{0, len(orig) / 2, len(orig) - 1}
+			for oi2, off := range offs {
+				if oi2 > 0 && off == offs[oi2-1] {
+					continue
+				}
+				mut := c38Clone(orig)
+				mut[off] ^= 1
+				k.mustFail(e, sec, a, "same-size-bit0", o.kind, fmt.Sprintf("%s|same-size|%s|%d", n, o.key, off), []c38Edit{{key: o.key, body: mut}})
+				nSameSize++
 			}
 		}
 		// B2: object deleted / truncated / extended / doubled / emptied
@@ -467,9 +490,27 @@ func (k *c38Kit) singleMutations(archives []*c38Archive) {
 	}
 	k.r.Count("single_mutation_byte_cases", nBytes)
 	k.r.Count("single_mutation_byte_objects", nObjs)
+	k.r.Count("single_mutation_same_size_chunk_cases", nSameSize)
+	dupDesc := int64(0)
+	for _, a := range archives {
+		seen := map[backup.ChunkDescriptor]bool{}
+		for _, sm := range a.slotMan {
+			for _, c := range sm.Chunks {
+				if seen[c.Descriptor] {
+					dupDesc++
+				}
+				seen[c.Descriptor] = true
+			}
+		}
+	}
+	k.r.Count("chunks_with_descriptor_seen_earlier_in_pass", dupDesc)
+	if k.replay == "" && k.shardI == 0 {
+		k.r.Guard("duplicate-descriptors-present", dupDesc >= 200, "%d chunks carry a descriptor that an earlier Slot of the same archive already carries (idle Slots with identical content, two identical busy Slots)", dupDesc)
+	}
 	e.Done(!k.capped, map[string]any{
 		"archives":        len(archives),
 		"byte_mutations":  "every byte x {bit0 flipped, 0xFF} of: COMPLETE and every Slot manifest and chunk of the focus Slots of every archive; manifest.json (64 KiB) of the 'rich' archive at offsets <2048, the last 512 and every 17th (thorough: every byte of manifest.json of every archive, more focus Slots incl. Slots 127, 128 and the last one)",
+		"same_size":       "every chunk object: bit 0 of the first, middle and last byte flipped (size unchanged); quick: Slots 0-7, 248-255 and every 16th of every archive, thorough: all 256 Slots; archive 'dup' makes all idle Slots (and busy Slots 3 and 9) share chunk content, i.e. equal descriptors within one verification pass",
 		"object_level":    "quick: archive 'min': every object of all 256 Slots deleted, every 16th Slot also last byte cut / +1 byte 00; other archives every 64th Slot; thorough: every object of every archive deleted, cut to {0,1,half,len-1}, +1 byte {00,0a,20,ff,7d}, doubled; objects in byte scope: every truncation length (quick: stride 61 + last 256 lengths for objects > 4 KiB), +1 byte x5, doubled, space-prefixed",
 		"pairs":           "all ordered pairs of focus objects + neighbouring Slots' manifests/first chunks (quick: every 64th Slot): bytes stored under the other key, and swapped",
 		"order":           "every non-identity permutation of a focus Slot's chunk references (manifest re-encoded) and of its chunk objects",
